@@ -28,6 +28,8 @@ func execLine(line string) string {
 		switch t[0] {
 		case "case":
 			return "case"
+		case "gen":
+			return execGen(t[1:])
 		case "packed":
 			return execPacked(t[1:])
 		}
@@ -41,6 +43,7 @@ var Shard, Shards = 0, 1
 
 var generators = map[string]func(rec *lib.Rec, r *lib.Rng, thorough bool){
 	"C13": genC13,
+	"GEN": func(rec *lib.Rec, r *lib.Rng, thorough bool) { genTranslatorStream(rec, r, map[bool]int{false: 2000, true: 100000}[thorough], nil) },
 }
 
 // runCorpus replays the minimised past failures and hand-picked boundary
